@@ -160,7 +160,9 @@ impl<'a> Tokenizer<'a> {
         // LLVM can inline all of this and compile it down to fast iteration over bytes.
         let mut escaped = false;
         while !self.is_eof() && predicate(self.peek().unwrap(), escaped) {
-            escaped = self.bump() == Some('\\');
+            // a backslash escapes the next character, unless it is escaped itself
+            let c = self.bump();
+            escaped = !escaped && c == Some('\\');
         }
     }
 }
@@ -234,8 +236,10 @@ impl<'a> Iterator for Tokenizer<'a> {
             '"' => {
                 self.skip_while(|c, esc| c != '"' || esc);
 
-                // skip closing "
-                self.bump()?;
+                // skip closing " (a string that is never closed is not a token)
+                if self.bump().is_none() {
+                    return Some(Illegal);
+                }
 
                 // this reads the string including escape characters
                 String(self.read_str(start + 1, self.offset() - 1))
